@@ -33,9 +33,14 @@ CONTAINERS = {
     "dl": ("dict", "cint", "listint3"),
     "si": ("set", "int"),
     "sc": ("set", "cint"),
+    # containers inside Union(...) on a second object without any recorder
+    "ul": ("list", "int"),
+    "ud": ("dict", "str", "int"),
+    "us": ("set", "int"),
 }
+UNAMES = ("ul", "ud", "us")
 TARGETS = ["li", "li", "li", "lc", "ls", "ll", "ll[]", "lk", "lk", "ln", "di",
-           "dl", "dl[]", "si", "sc"]
+           "dl", "dl[]", "si", "sc", "ul", "ud", "us"]
 
 LIST_OPS = [k for k in c05.OPS]
 LIST_OPS_NOSORT = [k for k in c05.OPS if k != "sort"]
@@ -385,7 +390,9 @@ class Prop:
         ik = CONTAINERS[on][1:]
         x = r.random()
         if x < 0.15:
-            return {"k": "assign_bad", "how": r.choice(["tuple", "none", "int", "wrongkind"])}
+            return {"k": "assign_bad", "how": r.choice(["tuple", "none", "int", "wrongkind"]
+                                                       if on not in UNAMES else
+                                                       ["tuple", "int", "wrongkind"])}
         if x < 0.25:
             # 'del holder.trait': back to the declared default (which obeys the bounds)
             return {"k": "reset"}
@@ -403,7 +410,8 @@ class Prop:
     @staticmethod
     def initial_model(lo):
         return {"li": list(range(lo)), "lc": [], "ls": [], "ll": [], "lk": [], "ln": [],
-                "di": {}, "dl": {}, "si": set(), "sc": set()}
+                "di": {}, "dl": {}, "si": set(), "sc": set(),
+                "ul": [], "ud": {}, "us": set()}
 
     @staticmethod
     def resolve_model(model, on, li_bounds):
@@ -467,8 +475,10 @@ class Prop:
         return container_step(m, ckind, ikind, bounds, op)
 
     # ------------------------------------------------------------------ execution
-    @staticmethod
-    def resolve_sut(h, on):
+    def own(self, h, name):
+        return self._u if name in UNAMES else h
+
+    def resolve_sut(self, h, on):
         if isinstance(on, list):
             name, j = on
             outer = getattr(h, name)
@@ -478,7 +488,7 @@ class Prop:
                 return outer[j % len(outer)]
             keys = sorted(outer)
             return outer[keys[j % len(keys)]]
-        return getattr(h, on)
+        return getattr(self.own(h, on), on)
 
     def execute(self, trace, env):
         from ..zoo04 import HOLDERS, BOUNDS, Item
@@ -490,6 +500,8 @@ class Prop:
         for n in range(3):
             OBJECTS[n] = Item(uid=n)
         h = HOLDERS[bidx]()
+        from ..zoo04 import UHolder
+        self._u = UHolder()
         model = self.initial_model(lo)
         calls = []
 
@@ -503,6 +515,8 @@ class Prop:
 
         def attach(obj):
             for name in CONTAINERS:
+                if name in UNAMES:
+                    continue
                 obj.on_trait_change(rec_otc, name)
                 obj.on_trait_change(rec_otc, name + "_items")
                 obj.observe(rec_obs, name + ".items")
@@ -517,24 +531,26 @@ class Prop:
             k = op["k"]
             env.oracle_evals += 1
             if k == "restart":
-                h2, e = sut(lambda: pickle.loads(pickle.dumps(h, op["proto"])))
+                res, e = sut(lambda: pickle.loads(pickle.dumps((h, self._u), op["proto"])))
+                h2, u2 = res if e is None else (None, None)
                 env.end_op()
                 if e is not None:
                     raise Violation("C04.restart", "pickle round trip raised %r" % (e,), i)
-                h = h2
+                h, self._u = h2, u2
                 attach(h)
                 self.check_all(h, model, i)
                 env.token("restart")
                 continue
             if k == "fork":
                 if op["how"] == "deepcopy":
-                    h2, e = sut(copy.deepcopy, h)
+                    res, e = sut(copy.deepcopy, (h, self._u))
                 else:
-                    h2, e = sut(h.clone_traits)
+                    res, e = sut(lambda: (h.clone_traits(), self._u.clone_traits()))
+                h2, u2 = res if e is None else (None, None)
                 env.end_op()
                 if e is not None:
                     raise Violation("C04.fork", "%s raised %r" % (op["how"], e), i)
-                h = h2
+                h, self._u = h2, u2
                 attach(h)
                 self.check_all(h, model, i)
                 env.token("fork", op["how"])
@@ -569,13 +585,13 @@ class Prop:
                     env.end_op()
                     env.token("skip")
                     continue
-                ret, e = sut(setattr, h, name, value)
+                ret, e = sut(setattr, self.own(h, name), name, value)
             elif k == "assign_bad":
                 bad = {"tuple": (1, 2), "none": None, "int": 5,
                        "wrongkind": {1} if ckind != "set" else [1]}[op["how"]]
-                ret, e = sut(setattr, h, name, bad)
+                ret, e = sut(setattr, self.own(h, name), name, bad)
             elif k == "reset":
-                ret, e = sut(delattr, h, name)
+                ret, e = sut(delattr, self.own(h, name), name)
             elif ckind == "list":
                 ret, e = c05.sut_list_apply(target, op)
             elif ckind == "dict":
@@ -669,7 +685,7 @@ class Prop:
 
     def check_all(self, h, model, i, op=None):
         for name, desc in CONTAINERS.items():
-            got = getattr(h, name)
+            got = getattr(self.own(h, name), name)
             want = model[name]
             ck = desc[0]
             if ck == "list":
@@ -716,6 +732,7 @@ class Prop:
                 "rejected_at_bound_cells": len([c for c in cells if c[3] == "fail" and c[4]])}
 
     def cleanup(self):
+        self._u = None
         CUR["env"] = None
         OBJECTS.clear()
 
